@@ -1,6 +1,6 @@
 """C18 - DAG Recorder totals do not depend on how the DAG was contracted (partial, structural clauses only)."""
 from .. import lib
-from ..lib import (call_sites, same_value, describe, expr_str)
+from ..lib import (call_sites, same_value, describe, expr_str, affine, is_load_of)
 from ..ir import const_int
 
 META = {
@@ -468,6 +468,7 @@ def rule4_edges(ctx, m, a, s):
                detail=detail)
     ctx.floor('C18.4', 30)
     rule5_sections(ctx)
+    rule7_report(ctx)
     if not getattr(ctx, '_in_c19_share', False):
         from . import c19
         with ctx.shared({'C19.9': 'C18.6'}, floor=4,
@@ -484,6 +485,122 @@ OPENERS = {'dr_push_back_section': {'dr_task_ensure_section', 'dr_begin_section_
 ENTRY = {'create_task': ('dr_enter_create_task__', 'dr_return_from_create_task__', {'create_cont'}),
          'wait_tasks': ('dr_enter_wait_tasks__', 'dr_return_from_wait_tasks__', {'wait_cont', 'end'}),
          'other': ('dr_enter_other__', 'dr_return_from_other__', {'other_cont'})}
+
+
+def rule7_report(ctx):
+    ctx.doc('C18.7', 'what the report prints: work is the sum of info.t_1 over exactly the leaves of the (possibly contracted) DAG - interval '
+            'nodes and sections / tasks whose subgraph range is empty - accumulated over all n nodes (dr_calc_inner_delay); the lines '
+            'create_task / wait_tasks / end_task print the root\'s logical node count of that kind, "work (T1)" that sum and '
+            '"critical_path (T_inf)" the root\'s t_inf')
+    g = ctx.ssa('gen_stat.c', area='profiler')
+    en = ctx.enumerators('gen_stat.c', area='profiler')
+    SEC = ctx.need_enum(en, 'dr_dag_node_kind_section')
+    nz = lambda d: {k: v for k, v in d.items() if v != 0}
+    f = ctx.need_fn(g, 'dr_calc_inner_delay')
+    st = [x for x in f.stores_to('dr_basic_stat.total_t_1')]
+    ctx.ob('C18.7', 'calc_inner_delay: publishes the work total', len(st) == 1 and len(f.loops) == 1, 'bs->total_t_1 = total_t_1', loc=f.loc)
+    if len(st) == 1 and len(f.loops) == 1:
+        L = f.loops[0]
+        H = f.get(f.strip(st[0].ops[0]))
+        okH = H is not None and H.op == 'phi' and H.block.id == L['header'] and len(H.d['incoming']) == 2
+        init = [v for v, b in H.d['incoming'] if b not in L['blocks']] if okH else []
+        back = [v for v, b in H.d['incoming'] if b in L['blocks']] if okH else []
+        okH = okH and len(init) == 1 and const_int(init[0]) == 0 and len(back) == 1
+        ctx.ob('C18.7', 'calc_inner_delay: the total starts at 0 and is carried round the loop over the nodes', okH, 'accumulator', loc=st[0].loc)
+        if okH:
+            # loop counter: 0 .. G->n step 1, node = &T[i]
+            iv = [ph for ph in f.blocks[L['header']].insts if ph.op == 'phi' and ph.id != H.id and len(ph.d['incoming']) == 2 and
+                  any(const_int(v) == 0 for v, b in ph.d['incoming'] if b not in L['blocks']) and
+                  any(nz(lib.affine_diff(f, v, ph.id)) == {'': 1} for v, b in ph.d['incoming'] if b in L['blocks'])]
+            bound = [ic for ic in f.blocks[L['header']].insts if ic.op == 'icmp' and ic.pred in ('slt', 'ult') and iv and
+                     f.strip(ic.ops[0]) == iv[0].id and lib.load_terms(f, affine(f, ic.ops[1]), 'dr_pi_dag.n')]
+            ctx.ob('C18.7', 'calc_inner_delay: visits every node, i = 0 .. G->n - 1', len(iv) >= 1 and len(bound) == 1, 'for (i = 0; i < n; i++)', loc=f.loc)
+            m = f.get(f.strip(back[0]))
+            alts = [(v, b) for v, b in m.d['incoming']] if m is not None and m.op == 'phi' and m.id != H.id else [(back[0], None)]
+            adds, skips = [], []
+            okacc = True
+            for v, b in alts:
+                d = nz(lib.affine_diff(f, v, H.id))
+                if d == {}:
+                    skips.append((v, b))
+                    continue
+                ks = list(d)
+                l = f.insts.get(ks[0]) if len(ks) == 1 else None
+                if l is not None and d[ks[0]] == 1 and l.op == 'load' and f.field(l) == INFO + 't_1' and \
+                        l.block.id in L['blocks']:
+                    adds.append((v, b, l))
+                else:
+                    okacc = False
+            ctx.ob('C18.7', 'calc_inner_delay: each visited leaf adds its own t_1, once', okacc and len(adds) >= 1,
+                   'total_t_1 += t->info.t_1 (an assignment or a different field changes the reported work)', loc=st[0].loc)
+            # the node whose t_1 is added is T[i]
+            for v, b, l in adds:
+                ap_ = f.ap(l.ops[0])
+                okn = bool(iv) and is_load_of(f, ap_.root, 'dr_pi_dag.T') and ap_.steps[:1] and ap_.steps[0][0] == 'p' and \
+                    isinstance(ap_.steps[0][1], str) and f.strip(ap_.steps[0][1]) == iv[0].id and len(ap_.steps) == 3
+                ctx.ob('C18.7', 'calc_inner_delay: the node read is T[i]', okn, 't = &T[i]', loc=l.loc)
+            # leaf condition: skipped exactly when kind >= section and the range is not empty
+            kinds = [ic for ic in f.order if ic.op == 'icmp' and const_int(ic.ops[1]) is not None and
+                     (lambda l_: l_ is not None and l_.op == 'load' and f.field(l_) == INFO + 'kind')(f.get(f.strip(ic.ops[0])))]
+            rng = [ic for ic in f.order if ic.op == 'icmp' and ic.pred in ('eq', 'ne') and
+                   sorted(f.field(x) if (x is not None and x.op == 'load') else '' for x in (f.get(f.strip(o)) for o in ic.ops)) ==
+                   ['dr_pi_dag_node.subgraphs_begin_offset', 'dr_pi_dag_node.subgraphs_end_offset']]
+
+            def is_section(ic, truth):
+                k = const_int(ic.ops[1])
+                return (ic.pred in ('ult', 'slt') and k == SEC and not truth) or (ic.pred in ('uge', 'sge') and k == SEC and truth) or \
+                    (ic.pred in ('ugt', 'sgt') and k == SEC - 1 and truth) or (ic.pred in ('ule', 'sle') and k == SEC - 1 and not truth)
+            from ..ir import EdgePoint
+            okleaf = bool(skips) and bool(kinds) and bool(rng) and m is not None and m.op == 'phi'
+            for v, b in skips:
+                if b is None:
+                    okleaf = False
+                    continue
+                ep = EdgePoint(f, b, m.block.id)
+                s1 = any(f.on_edge(c_, t_ == p_, ep) and is_section(ic, t_) for ic in kinds for c_, p_ in lib.cond_chain(f, ic.id) for t_ in (True, False))
+                s2 = any(f.on_edge(c_, (ic.pred == 'ne') == p_, ep) for ic in rng for c_, p_ in lib.cond_chain(f, ic.id))
+                okleaf = okleaf and s1 and s2
+            ctx.ob('C18.7', 'calc_inner_delay: a node is skipped only if it is a section / task with a non-empty subgraph range', okleaf,
+                   'interval nodes and contracted sections / tasks are the leaves whose t_1 make up the work; inner nodes would be counted '
+                   'twice', loc=st[0].loc)
+    w = ctx.need_fn(g, 'dr_basic_stat_write_to_file')
+    CRE, WAI, END = (ctx.need_enum(en, 'dr_dag_node_kind_' + k) for k in ('create_task', 'wait_tasks', 'end_task'))
+    want = {'create_task': ('count', CRE), 'wait_tasks': ('count', WAI), 'end_task': ('count', END),
+            'work (T1)': ('field', 'dr_basic_stat.total_t_1'), 'critical_path (T_inf)': ('root', INFO + 't_inf')}
+    found = {}
+    for c in w.calls():
+        if c.callee != 'fprintf' or len(c.args) < 3 or not isinstance(c.args[1], dict):
+            continue
+        gl = (c.args[1].get('ops') or [{}])[0].get('g') if c.args[1].get('ce') else c.args[1].get('g')
+        txt = g.globals.get(gl, {}).get('init', {}).get('str') if gl else None
+        if not txt or '=' not in txt:
+            continue
+        label = txt.split('=')[0].strip()
+        if label in want:
+            found.setdefault(label, []).append(c)
+    for label, (kind, what) in sorted(want.items()):
+        cs = found.get(label, [])
+        if len(cs) != 1:
+            from ..frontend import AnalysisBroken
+            raise AnalysisBroken('report line "%s" not found once in dr_basic_stat_write_to_file (format changed? update C18.7)' % label)
+        c = cs[0]
+        l = w.get(w.strip(c.args[2]))
+        ok = l is not None and l.op == 'load'
+        if ok:
+            ap = w.ap(l.ops[0])
+            r = w.get(w.strip(ap.root)) if isinstance(ap.root, str) else None
+            at_root = r is not None and r.op == 'load' and w.field(r) == 'dr_pi_dag.T' and ap.steps[:1] == [('f', 'dr_pi_dag_node.info')]
+            if kind == 'count':
+                idx = sum(s_[1] for s_ in ap.steps[2:] if s_[0] in ('i', 'p') and isinstance(s_[1], int))
+                ok = at_root and ap.fields[-1:] == [INFO + 'logical_node_counts'] and idx == what and \
+                    all(isinstance(s_[1], int) for s_ in ap.steps[2:])
+            elif kind == 'root':
+                ok = at_root and ap.fields[-1:] == [what] and len(ap.steps) == 2
+            else:
+                ok = ap.fields == [what] and w.strip(ap.root) == 'a0'
+        ctx.ob('C18.7', 'report line "%s" prints %s' % (label, ('the root count of kind %d' % what) if kind == 'count' else what.split('.')[1]), ok,
+               'the printed total is the quantity the label names', loc=c.loc)
+    ctx.floor('C18.7', 10)
 
 
 def rule5_sections(ctx):
@@ -667,6 +784,16 @@ def combine_op(f, ref):
 
 INL = 'src/profiler/dag_recorder_inl.h'
 MUTANTS = [
+    {'name': 'report: work counts inner nodes as well', 'expect': 'C18.7',
+     'edits': [('src/profiler/gen_stat.c', "    if (t->info.kind < dr_dag_node_kind_section\n\t|| t->subgraphs_begin_offset == t->subgraphs_end_offset) {\n      total_elapsed += elapsed;", "    if (1) {\n      total_elapsed += elapsed;")]},
+    {'name': 'report: work keeps only the last leaf', 'expect': 'C18.7',
+     'edits': [('src/profiler/gen_stat.c', "      total_t_1 += t_1;", "      total_t_1 = t_1;")]},
+    {'name': 'report: wait_tasks line prints the end_task count', 'expect': 'C18.7',
+     'edits': [('src/profiler/gen_stat.c', "  fprintf(wp, \"wait_tasks            = %ld\\n\", n_waits);", "  fprintf(wp, \"wait_tasks            = %ld\\n\", n_ends);")]},
+    {'name': 'report: critical path line prints the work', 'expect': 'C18.7',
+     'edits': [('src/profiler/gen_stat.c', "  dr_clock_t t_inf = G->T[0].info.t_inf;", "  dr_clock_t t_inf = G->T[0].info.t_1;")]},
+    {'name': 'report: work skips contracted sections', 'expect': 'C18.7',
+     'edits': [('src/profiler/gen_stat.c', "\t|| t->subgraphs_begin_offset == t->subgraphs_end_offset) {\n      total_elapsed += elapsed;", "\t&& t->subgraphs_begin_offset == t->subgraphs_end_offset) {\n      total_elapsed += elapsed;")]},
     {'name': 'dr_calc_edges replaces the wrong coordinate of a multi-worker source (seed3 C19/m3)', 'expect': 'C18.4',
      'edits': [('src/profiler/gen_stat.c', "#endif\n      uw = nw;\n    }", "#endif\n      vw = nw;\n    }")]},
     {'name': 'collapse zeroes the work of the collapsed node', 'expect': 'C18.1',
